@@ -591,8 +591,8 @@ def run_pathops(chk, h, scratch, pm, tier, broken, model_ok):
                 exp_ref = "0"
             else:
                 exp_model = drv.batch([f"werrno {ename}"])[0] if model_ok else None
-                ref = reference_wasi_errno(ename, values)
-                exp_ref = str(ref) if ref is not None else exp_model
+                refe = reference_wasi_errno(ename, values)
+                exp_ref = str(refe) if refe is not None else (exp_model or "28")
             errs[(ename or "ok")] = errs.get((ename or "ok"), 0) + 1
             if rt[0] != exp_ref:
                 if rt[0] == exp_model:
@@ -605,10 +605,12 @@ def run_pathops(chk, h, scratch, pm, tier, broken, model_ok):
                                   {"kind": "pathop", "request": mline, "real": real, "expected": exp_ref, "host_op": m}, True)
             if ename is None and m.split()[1] == "readlink":
                 if len(rt) < 3 or wp.unhexs(rt[2]) != (extra2 if not extra2.startswith(Bb) else Ab + extra2[len(Bb):]):
-                    broken.append({"kind": "correspondence", "msg": f"{mline[:100]}: readlink real `{real[:80]}` twin `{extra2[:40]}`"})
+                    chk.violation("pathop-readlink-wrong-content", f"path_readlink: real `{real[:80]}`, readlink of the resolved path gives `{extra2[:40]}`",
+                                  {"kind": "pathop", "request": mline, "real": real, "expected": extra2.hex(), "host_op": m}, True)
             if ename is None and m.split()[1] == "stat":
                 if len(rt) < 3 or (int(rt[1]), int(rt[2])) != extra2:
-                    broken.append({"kind": "correspondence", "msg": f"{mline[:100]}: stat real `{real[:80]}` twin `{extra2}`"})
+                    chk.violation("pathop-stat-wrong-result", f"path_filestat_get: real `{real[:80]}`, stat of the resolved path gives (filetype, size) = {extra2}",
+                                  {"kind": "pathop", "request": mline, "real": real, "expected": str(extra2), "host_op": m}, True)
         sa, sb = snapshot(os.path.join(base, "A")), snapshot(os.path.join(base, "B"))
         if sa != sb:
             diff = sorted(set(sa.items()) ^ set(sb.items()))[:6]
@@ -654,8 +656,10 @@ def run(tier):
         for m, msg in leanchecker(chk, MODULES):
             broken.append({"kind": "leanchecker", "msg": f"{m}: {msg}"})
     if broken and not chk.violations and not chk.known_hit:
+        first = broken[0]
         chk.violation("tie-or-proof-broken",
-                      "a proof obligation or a correspondence no longer checks; the sweeps found no input on which the real code violates the property",
+                      "model/code tie or proof broken (NOT a demonstrated defect of the real code: every property check on the real answers passed): "
+                      + ", ".join(sorted({b.get("kind", "?") for b in broken})) + " — first: " + str(first.get("msg", first))[:300],
                       {"broken": broken[:20]}, False)
     elif broken:
         chk.notes.append({"broken": broken[:10]})
